@@ -88,7 +88,7 @@ static struct {
 } seen_con[32];
 static int nseen_con;
 /* raw peer state */
-static int raw_next_mid = 0x7000;
+static int raw_next_mid = 0x0000; /* the raw peer numbers its own messages from 0 (a fresh session must not mistake id 0 for "seen before") */
 static struct {
   int mid;
   uint8_t tok[8];
@@ -514,7 +514,7 @@ run(void *arg) {
   nseen_resp = 0;
   cur_is_dup = 0;
   nraw_seen = 0;
-  raw_next_mid = 0x7000;
+  raw_next_mid = 0x0000;
   ns_on_send = on_send;
   ns_on_deliver = on_deliver;
   ns_raw_rx = raw_rx;
